@@ -184,6 +184,7 @@ def o_history(ctx):
                     self.max_intrinsic_pka_diff = 20.0
                     self.min_swap_pka_shift = 0.0
                     self.max_free_energy_diff = 50.0
+                self.desolv_cutoff, self.buried_cutoff, self.coulomb_cutoff2 = 16.0, 12.0, 8.0
                 PP.Parameters.parse_line = parse
                 try:
                     M.run(M.text('pair_ASP_ASP'), args=['-d'])
@@ -217,6 +218,7 @@ def _run_history_item(hname, hargs):
                 self.max_intrinsic_pka_diff = 20.0
                 self.min_swap_pka_shift = 0.0
                 self.max_free_energy_diff = 50.0
+                self.desolv_cutoff, self.buried_cutoff, self.coulomb_cutoff2 = 16.0, 12.0, 8.0
             PP.Parameters.parse_line = parse
             try:
                 M.run(M.text('pair_ASP_ASP'), args=['-d'])
